@@ -42,6 +42,10 @@ func propC11(c *Check) {
 	c.Rule("R1", "writers: Validator.Locking is stored only in lock, unlock, the two slash functions (and creation); Slashed only in the two slash functions and genesis")
 	c.Rule("R2", "paired deltas: unlock subtracts from the holding exactly the amount it queues, clipped to the holding; lock adds exactly the requested coins; each slash adds to Slashed[denom] exactly what it takes from the holding (everything when the truncated fraction is zero) on top of the previous total")
 	c.Rule("R3", "the downtime path uses SlashFractionDowntime, the evidence path SlashFractionDoubleSign")
+	c.Rule("R4", "validator creation never overwrites: a validator record built from scratch is stored only under a key that was looked up and found absent (re-creating a validator would wipe the coins its record still holds)")
+	c.freshRecordsNeverOverwrite("R4", "x/locking/keeper", "Validators", 1)
+	c.Rule("R5", "every slash fraction the parameter validation accepts lies in [0, 1): a negative fraction would make a slash credit the offender and drive the slashed total negative, a fraction >= 1 would take more than is held")
+	c.slashFractionsValidated("R5")
 	vt := p.LookupType("x/locking/types", "Validator")
 	allowedL := map[string]bool{"x/locking/keeper.Keeper.lock": true, "x/locking/keeper.Keeper.unlock": true, "x/locking/keeper.Keeper.handleVoteInfo": true,
 		"x/locking/keeper.Keeper.handleEvidence": true, "x/locking/keeper.Keeper.createValidator": true}
@@ -372,6 +376,9 @@ func propC12(c *Check) {
 			"EthTxQueue.Get()#0.Rewards":            "append(mix{EthTxQueue.Get()#0.Rewards|append(@, [new(locking/types.Reward)#0])}, [new(locking/types.Reward)#0])",
 		}
 		for _, s := range p.renderedStores(cl) {
+			if s.val == s.addr {
+				continue // stored back unchanged (e.g. capacity reserved with slices.Grow)
+			}
 			if w, ok := want[s.addr]; ok {
 				delete(want, s.addr)
 				if noOrd(s.val) == w {
